@@ -781,524 +781,534 @@ def pair_rule(repo, ig, chk, rule):
 
 def run(repo, chk):
     # ---------------------------------------------------------------- R-C01-2b the adjacency view follows edits of the links' ends (interpreted history on the fixture model); first, so that it decides on its own
-    from ._shared import adjacency_history_rules
-    adjacency_history_rules(repo, chk, "R-C01-2b")
+    with chk.part("R-C01-2b the adjacency view follows edits of the links' ends (interpreted history on the f"):
+        from ._shared import adjacency_history_rules
+        adjacency_history_rules(repo, chk, "R-C01-2b")
 
     # ---------------------------------------------------------------- R-C01-1 balance rows
-    sig_mb = {}
-    for bname, dname, dictname in (("mass_balance_constraint", "expected_demand", "mass_balance"), ("pdd_mass_balance_constraint", "demand", "pdd_mass_balance")):
-        fn = repo.func(CON, bname + ".build")
-        ex = SplitExec(inline=B.inline_table(repo), test_hook=B.std_test_hook)
-        outs = ex.run(fn)
-        if not outs:
-            raise ExtractError("%s.build: no paths" % bname)
-        paths = [B.Path(o) for o in outs]
-        chk.fn(fn)
-        loops = [e for e in paths[0].st.events if e[0] == "loop"]
-        main = loops[0] if loops else None
-        chk.expect(main is not None and main[2] == "wn.junction_name_list", "R-C01-1", "%s: default index set is every junction" % bname, loc(fn),
-                   expected="wn.junction_name_list", found=main[2] if main else None)
-        key = main[1] if main else "node_name"          # the loop variable: name of the junction the row belongs to
-        for p in paths:
-            fx = facts(p.conds)
-            iso, leak = fact(fx, "._is_isolated"), fact(fx, ".leak_status")
-            st = p.stores("m.%s[" % dictname)
-            if iso:
-                chk.expect(not st, "R-C01-1", "%s: isolated junction gets no balance row" % bname, loc(fn), found=[s[0] for s in st])
-                continue
-            if iso is None:
-                chk.bad("R-C01-1", "%s: balance row is guarded by the isolated test" % bname, loc(fn), found=p.label)
-            ok_key = len(st) == 1 and st[0][0] == "m.%s[%s]" % (dictname, key) and isinstance(st[0][1], Constraint) and not isinstance(st[0][1].expr, CondExpr)
-            if not ok_key:
-                chk.bad("R-C01-1", "%s: one row per connected junction under the junction's name" % bname, loc(fn), found=[s[0] for s in st])
-                continue
-            e = ex.S(st[0][1].expr)
-            co, rest = split_balance(e, dname, key)
-            has_leak = bool(leak)
-            cD = co["D"]
-            tag = "%s [leak %s]" % (bname, "on" if has_leak else "off")
-            good = cD != 0 and rest == 0 and co["IN"] == -cD and co["OUT"] == cD and co["LEAK"] == (cD if has_leak else 0)
-            chk.expect(good, "R-C01-1", "%s: row is  D - sum(inlet flows) + sum(outlet flows)%s  (up to one global sign)" % (tag, " + leak" if has_leak else ""), loc(fn, None),
-                       "junction mass balance: inflow - outflow = demand + leak", expected="D:+1 IN:-1 OUT:+1 LEAK:%s rest:0" % ("+1" if has_leak else "0"),
-                       found="D:%s IN:%s OUT:%s LEAK:%s rest:%s" % (co["D"], co["IN"], co["OUT"], co["LEAK"], rest))
-            if cD != 0:
-                sig_mb.setdefault(bname, set()).add(sp.sign(-co["IN"] / cD) if co["IN"] != 0 else 0)
-            chk.sample({"rule": "R-C01-1", "builder": bname, "leak": has_leak, "row": str(e)})
-            if leak is None:
-                chk.bad("R-C01-1", "%s: leak term is guarded by leak_status" % bname, loc(fn), found=p.label)
-        B.check_updaters(chk, "R-C01-1", fn, bname, paths, {"leak_status", "_is_isolated"}, loc(fn))
-    chk.floor("R-C01-1", 2 * 5)
+    with chk.part("R-C01-1 balance rows"):
+        sig_mb = {}
+        for bname, dname, dictname in (("mass_balance_constraint", "expected_demand", "mass_balance"), ("pdd_mass_balance_constraint", "demand", "pdd_mass_balance")):
+            fn = repo.func(CON, bname + ".build")
+            ex = SplitExec(inline=B.inline_table(repo), test_hook=B.std_test_hook)
+            outs = ex.run(fn)
+            if not outs:
+                raise ExtractError("%s.build: no paths" % bname)
+            paths = [B.Path(o) for o in outs]
+            chk.fn(fn)
+            loops = [e for e in paths[0].st.events if e[0] == "loop"]
+            main = loops[0] if loops else None
+            chk.expect(main is not None and main[2] == "wn.junction_name_list", "R-C01-1", "%s: default index set is every junction" % bname, loc(fn),
+                       expected="wn.junction_name_list", found=main[2] if main else None)
+            key = main[1] if main else "node_name"          # the loop variable: name of the junction the row belongs to
+            for p in paths:
+                fx = facts(p.conds)
+                iso, leak = fact(fx, "._is_isolated"), fact(fx, ".leak_status")
+                st = p.stores("m.%s[" % dictname)
+                if iso:
+                    chk.expect(not st, "R-C01-1", "%s: isolated junction gets no balance row" % bname, loc(fn), found=[s[0] for s in st])
+                    continue
+                if iso is None:
+                    chk.bad("R-C01-1", "%s: balance row is guarded by the isolated test" % bname, loc(fn), found=p.label)
+                ok_key = len(st) == 1 and st[0][0] == "m.%s[%s]" % (dictname, key) and isinstance(st[0][1], Constraint) and not isinstance(st[0][1].expr, CondExpr)
+                if not ok_key:
+                    chk.bad("R-C01-1", "%s: one row per connected junction under the junction's name" % bname, loc(fn), found=[s[0] for s in st])
+                    continue
+                e = ex.S(st[0][1].expr)
+                co, rest = split_balance(e, dname, key)
+                has_leak = bool(leak)
+                cD = co["D"]
+                tag = "%s [leak %s]" % (bname, "on" if has_leak else "off")
+                good = cD != 0 and rest == 0 and co["IN"] == -cD and co["OUT"] == cD and co["LEAK"] == (cD if has_leak else 0)
+                chk.expect(good, "R-C01-1", "%s: row is  D - sum(inlet flows) + sum(outlet flows)%s  (up to one global sign)" % (tag, " + leak" if has_leak else ""), loc(fn, None),
+                           "junction mass balance: inflow - outflow = demand + leak", expected="D:+1 IN:-1 OUT:+1 LEAK:%s rest:0" % ("+1" if has_leak else "0"),
+                           found="D:%s IN:%s OUT:%s LEAK:%s rest:%s" % (co["D"], co["IN"], co["OUT"], co["LEAK"], rest))
+                if cD != 0:
+                    sig_mb.setdefault(bname, set()).add(sp.sign(-co["IN"] / cD) if co["IN"] != 0 else 0)
+                chk.sample({"rule": "R-C01-1", "builder": bname, "leak": has_leak, "row": str(e)})
+                if leak is None:
+                    chk.bad("R-C01-1", "%s: leak term is guarded by leak_status" % bname, loc(fn), found=p.label)
+            B.check_updaters(chk, "R-C01-1", fn, bname, paths, {"leak_status", "_is_isolated"}, loc(fn))
+        chk.floor("R-C01-1", 2 * 5)
 
     # ---------------------------------------------------------------- R-C01-2 adjacency
-    # get_links_for_node is evaluated on a fixture network (concrete registry, concrete links): what it returns decides, not how it is written
-    sig_adj = None
-    try:
-        gfn, adj, typed, why = adjacency(repo)
-        chk.fn(gfn)
-        want = {"ALL": {"start_node_name", "end_node_name"}, "INLET": {"end_node_name"}, "OUTLET": {"start_node_name"}}
-        for flag in ("ALL", "INLET", "OUTLET"):
-            if flag not in adj:
-                chk.bad("R-C01-2", "get_links_for_node handles flag %s" % flag, loc(gfn), found=why.get(flag, sorted(k for k in adj if k)))
-                continue
-            chk.expect(typed.get(flag), "R-C01-2", "get_links_for_node(%s) keeps only link-typed usages" % flag, loc(gfn), found=why.get(flag))
-        consistent = adj.get("INLET") and adj.get("OUTLET") and len(adj["INLET"]) == 1 and len(adj["OUTLET"]) == 1 and adj["INLET"] != adj["OUTLET"] \
-            and adj.get("ALL") == {"start_node_name", "end_node_name"}
-        chk.expect(bool(consistent), "R-C01-2", "INLET and OUTLET select opposite ends and ALL both", loc(gfn), expected=want,
-                   found="%s %s" % ({k: sorted(v) for k, v in adj.items() if k}, "; ".join("%s: %s" % (k, v) for k, v in why.items() if k)))
-        chk.expect(None in adj and adj[None] == adj.get("ALL") and typed.get(None) == typed.get("ALL"), "R-C01-2", "get_links_for_node without a flag means ALL", loc(gfn),
-                   "callers that want every link of a node (parallel-link table of the isolation graph) leave the flag out", found=why.get(None, adj.get(None)))
-        sig_adj = 1 if adj.get("INLET") == {"end_node_name"} else (-1 if adj.get("INLET") == {"start_node_name"} else 0)
-        chk.sample({"rule": "R-C01-2", "adjacency": {str(k): sorted(v) for k, v in adj.items()}})
-    except (Unknown, ExtractError) as e:
-        # the small registry model of this fixture could not run the method (e.g. it reads an attribute the constructor sets): this rule cannot decide; the
-        # interpreted history R-C01-2b above runs the method on a model made by the real constructor and decides on its own
-        chk.error("R-C01-2: %s: %s" % (type(e).__name__, e))
+    with chk.part("R-C01-2 adjacency"):
+        # get_links_for_node is evaluated on a fixture network (concrete registry, concrete links): what it returns decides, not how it is written
+        sig_adj = None
+        try:
+            gfn, adj, typed, why = adjacency(repo)
+            chk.fn(gfn)
+            want = {"ALL": {"start_node_name", "end_node_name"}, "INLET": {"end_node_name"}, "OUTLET": {"start_node_name"}}
+            for flag in ("ALL", "INLET", "OUTLET"):
+                if flag not in adj:
+                    chk.bad("R-C01-2", "get_links_for_node handles flag %s" % flag, loc(gfn), found=why.get(flag, sorted(k for k in adj if k)))
+                    continue
+                chk.expect(typed.get(flag), "R-C01-2", "get_links_for_node(%s) keeps only link-typed usages" % flag, loc(gfn), found=why.get(flag))
+            consistent = adj.get("INLET") and adj.get("OUTLET") and len(adj["INLET"]) == 1 and len(adj["OUTLET"]) == 1 and adj["INLET"] != adj["OUTLET"] \
+                and adj.get("ALL") == {"start_node_name", "end_node_name"}
+            chk.expect(bool(consistent), "R-C01-2", "INLET and OUTLET select opposite ends and ALL both", loc(gfn), expected=want,
+                       found="%s %s" % ({k: sorted(v) for k, v in adj.items() if k}, "; ".join("%s: %s" % (k, v) for k, v in why.items() if k)))
+            chk.expect(None in adj and adj[None] == adj.get("ALL") and typed.get(None) == typed.get("ALL"), "R-C01-2", "get_links_for_node without a flag means ALL", loc(gfn),
+                       "callers that want every link of a node (parallel-link table of the isolation graph) leave the flag out", found=why.get(None, adj.get(None)))
+            sig_adj = 1 if adj.get("INLET") == {"end_node_name"} else (-1 if adj.get("INLET") == {"start_node_name"} else 0)
+            chk.sample({"rule": "R-C01-2", "adjacency": {str(k): sorted(v) for k, v in adj.items()}})
+        except (Unknown, ExtractError) as e:
+            # the small registry model of this fixture could not run the method (e.g. it reads an attribute the constructor sets): this rule cannot decide; the
+            # interpreted history R-C01-2b above runs the method on a model made by the real constructor and decides on its own
+            chk.error("R-C01-2: %s: %s" % (type(e).__name__, e))
 
     # ---------------------------------------------------------------- R-C01-4 tank / reservoir demand, leak demand, flow copy
-    sfn = repo.func(HYD, "store_results_in_network")
-    chk.fn(sfn)
-    ex = SplitExec()
-    outs = ex.run(sfn)
-    sig_tank = set()
-    seen = {"tank": 0, "res": 0, "jd": set(), "flow": 0, "leakT": 0, "leakJ": 0}
-    val_text = lambda v: v.text if isinstance(v, Opaque) else v
-    for o in outs:
-        lv = loop_vars(o)
-        fx = facts(o.conds)
-        last = {}                         # (ctx, target) -> value of the latest earlier store on this path
-        final = {}                        # (ctx, target) -> value of the last store on this path
-        for e in o.events:
-            if e[0] == "store":
-                final[((e[4][-1] if len(e) > 4 and e[4] else ""), e[1])] = e[2]
-        for e in o.events:
-            if e[0] != "store":
-                continue
-            loops = e[4] if len(e) > 4 else ()
-            ctx = loops[-1] if loops else ""
-            prev = dict(last)
-            last[(ctx, e[1])] = e[2]
-            if len(lv.get(ctx, ())) != 2:
-                continue
-            nm, ob = lv[ctx]              # `for <name>, <element> in wn.<kind>()`
-            if not e[1].startswith(ob + "."):
-                continue
-            attr = e[1][len(ob) + 1:]
-            if attr == "_demand" and ctx in ("wn.tanks()", "wn.reservoirs()"):
-                istank = ctx == "wn.tanks()"
-                v = sp.expand(ex.S(e[2]))
-                sums = flow_sums(v, ("wn.get_link($k).flow", "wn.get_link($k)._flow"), "wn", nm)
-                sin = [s for s, (fl, sg) in sums.items() if fl == "INLET"]
-                sout = [s for s, (fl, sg) in sums.items() if fl == "OUTLET"]
-                okv = len(sin) == 1 and len(sout) == 1
-                if okv:
-                    ci, co_ = v.coeff(sin[0]) * sums[sin[0]][1], v.coeff(sout[0]) * sums[sout[0]][1]
-                    rest = v - v.coeff(sin[0]) * sin[0] - v.coeff(sout[0]) * sout[0]
-                    # the leak that is subtracted: either the element's _leak_demand field is read back (then it must have been stored earlier on
-                    # this pass) or the value that is stored there on this pass is subtracted directly
-                    lsym = ex.sym(ob + "._leak_demand")
-                    okl = True
-                    if rest.has(lsym):
-                        lprev = prev.get((ctx, ob + "._leak_demand"))
-                        okl = lprev is not None
-                        rest = rest.xreplace({lsym: ex.S(lprev)}) if okl else rest
-                    lfin = final.get((ctx, ob + "._leak_demand"))
-                    try:
-                        lval = ex.S(lfin) if lfin is not None else None
-                    except ExtractError:
-                        lval = None
-                    if istank:
-                        okrest = lval is not None and is_zero(rest + lval)
-                    else:
-                        okrest = is_zero(rest)
-                    okv = ci == 1 and co_ == -1 and okl and okrest
-                    sig_tank.add(int(ci) if ci in (1, -1) else 0)
-                    seen["tank" if istank else "res"] += 1
-                chk.expect(bool(okv), "R-C01-4", "%s demand = sum(inlet flows) - sum(outlet flows)%s" % ("tank" if istank else "reservoir", " - leak" if istank else ""),
-                           loc(sfn, None), "reported demand of a tank/reservoir is its net inflow (link.flow of the links that end at it minus of those that start at it), less the tank's own leak demand",
-                           found=str(v))
-            if attr == "_leak_demand" and ctx in ("wn.tanks()", "wn.junctions()"):
-                ls = fx.get(ob + ".leak_status")
-                iso = fx.get(ob + "._is_isolated")
-                if ctx == "wn.junctions()" and iso:
+    with chk.part("R-C01-4 tank / reservoir demand, leak demand, flow copy"):
+        sfn = repo.func(HYD, "store_results_in_network")
+        chk.fn(sfn)
+        ex = SplitExec()
+        outs = ex.run(sfn)
+        sig_tank = set()
+        seen = {"tank": 0, "res": 0, "jd": set(), "flow": 0, "leakT": 0, "leakJ": 0}
+        val_text = lambda v: v.text if isinstance(v, Opaque) else v
+        for o in outs:
+            lv = loop_vars(o)
+            fx = facts(o.conds)
+            last = {}                         # (ctx, target) -> value of the latest earlier store on this path
+            final = {}                        # (ctx, target) -> value of the last store on this path
+            for e in o.events:
+                if e[0] == "store":
+                    final[((e[4][-1] if len(e) > 4 and e[4] else ""), e[1])] = e[2]
+            for e in o.events:
+                if e[0] != "store":
                     continue
-                if ls is not None:
-                    want_ = "m.leak_rate[%s].value" % nm if ls else 0
-                    got = val_text(e[2])
-                    chk.expect(got == want_, "R-C01-4", "%s leak demand is the leak-rate variable iff the leak is active [%s]" % ("tank" if ctx == "wn.tanks()" else "junction", "active" if ls else "inactive"),
-                               loc(sfn), expected=want_, found=got)
-                    seen["leakT" if ctx == "wn.tanks()" else "leakJ"] += 1
-            if attr == "_demand" and ctx == "wn.junctions()":
-                if fx.get(ob + "._is_isolated"):
+                loops = e[4] if len(e) > 4 else ()
+                ctx = loops[-1] if loops else ""
+                prev = dict(last)
+                last[(ctx, e[1])] = e[2]
+                if len(lv.get(ctx, ())) != 2:
                     continue
-                modes = demand_modes(fx)
-                got = val_text(e[2])
-                for md in sorted(modes or ()):
-                    pdd = md != "DD"
-                    want_ = ("m.demand[%s].value" if pdd else "m.expected_demand[%s].value") % nm
-                    chk.expect(got == want_, "R-C01-5d", "junction delivered demand is copied from %s in %s mode" % (want_.replace("[%s]" % nm, "[name]"), "PDD" if pdd else "DD"), loc(sfn),
-                               expected=want_, found=got)
-                    seen["jd"].add(md)
-            if attr == "_flow" and ctx == "wn.links()":
-                if fx.get(ob + "._is_isolated") is False:
+                nm, ob = lv[ctx]              # `for <name>, <element> in wn.<kind>()`
+                if not e[1].startswith(ob + "."):
+                    continue
+                attr = e[1][len(ob) + 1:]
+                if attr == "_demand" and ctx in ("wn.tanks()", "wn.reservoirs()"):
+                    istank = ctx == "wn.tanks()"
+                    v = sp.expand(ex.S(e[2]))
+                    sums = flow_sums(v, ("wn.get_link($k).flow", "wn.get_link($k)._flow"), "wn", nm)
+                    sin = [s for s, (fl, sg) in sums.items() if fl == "INLET"]
+                    sout = [s for s, (fl, sg) in sums.items() if fl == "OUTLET"]
+                    okv = len(sin) == 1 and len(sout) == 1
+                    if okv:
+                        ci, co_ = v.coeff(sin[0]) * sums[sin[0]][1], v.coeff(sout[0]) * sums[sout[0]][1]
+                        rest = v - v.coeff(sin[0]) * sin[0] - v.coeff(sout[0]) * sout[0]
+                        # the leak that is subtracted: either the element's _leak_demand field is read back (then it must have been stored earlier on
+                        # this pass) or the value that is stored there on this pass is subtracted directly
+                        lsym = ex.sym(ob + "._leak_demand")
+                        okl = True
+                        if rest.has(lsym):
+                            lprev = prev.get((ctx, ob + "._leak_demand"))
+                            okl = lprev is not None
+                            rest = rest.xreplace({lsym: ex.S(lprev)}) if okl else rest
+                        lfin = final.get((ctx, ob + "._leak_demand"))
+                        try:
+                            lval = ex.S(lfin) if lfin is not None else None
+                        except ExtractError:
+                            lval = None
+                        if istank:
+                            okrest = lval is not None and is_zero(rest + lval)
+                        else:
+                            okrest = is_zero(rest)
+                        okv = ci == 1 and co_ == -1 and okl and okrest
+                        sig_tank.add(int(ci) if ci in (1, -1) else 0)
+                        seen["tank" if istank else "res"] += 1
+                    chk.expect(bool(okv), "R-C01-4", "%s demand = sum(inlet flows) - sum(outlet flows)%s" % ("tank" if istank else "reservoir", " - leak" if istank else ""),
+                               loc(sfn, None), "reported demand of a tank/reservoir is its net inflow (link.flow of the links that end at it minus of those that start at it), less the tank's own leak demand",
+                               found=str(v))
+                if attr == "_leak_demand" and ctx in ("wn.tanks()", "wn.junctions()"):
+                    ls = fx.get(ob + ".leak_status")
+                    iso = fx.get(ob + "._is_isolated")
+                    if ctx == "wn.junctions()" and iso:
+                        continue
+                    if ls is not None:
+                        want_ = "m.leak_rate[%s].value" % nm if ls else 0
+                        got = val_text(e[2])
+                        chk.expect(got == want_, "R-C01-4", "%s leak demand is the leak-rate variable iff the leak is active [%s]" % ("tank" if ctx == "wn.tanks()" else "junction", "active" if ls else "inactive"),
+                                   loc(sfn), expected=want_, found=got)
+                        seen["leakT" if ctx == "wn.tanks()" else "leakJ"] += 1
+                if attr == "_demand" and ctx == "wn.junctions()":
+                    if fx.get(ob + "._is_isolated"):
+                        continue
+                    modes = demand_modes(fx)
                     got = val_text(e[2])
-                    want_ = "m.flow[%s].value" % nm
-                    chk.expect(got == want_, "R-C01-4", "link flow is copied from the flow variable of the same name", loc(sfn), expected=want_, found=got)
-                    seen["flow"] += 1
-    chk.expect(seen["tank"] >= 1 and seen["res"] >= 1 and seen["jd"] == set(MODES) and seen["flow"] >= 1 and seen["leakT"] >= 2 and seen["leakJ"] >= 2,
-               "R-C01-4", "store_results_in_network: all bookkeeping stores located", loc(sfn), found={k: (sorted(v) if isinstance(v, set) else v) for k, v in seen.items()})
+                    for md in sorted(modes or ()):
+                        pdd = md != "DD"
+                        want_ = ("m.demand[%s].value" if pdd else "m.expected_demand[%s].value") % nm
+                        chk.expect(got == want_, "R-C01-5d", "junction delivered demand is copied from %s in %s mode" % (want_.replace("[%s]" % nm, "[name]"), "PDD" if pdd else "DD"), loc(sfn),
+                                   expected=want_, found=got)
+                        seen["jd"].add(md)
+                if attr == "_flow" and ctx == "wn.links()":
+                    if fx.get(ob + "._is_isolated") is False:
+                        got = val_text(e[2])
+                        want_ = "m.flow[%s].value" % nm
+                        chk.expect(got == want_, "R-C01-4", "link flow is copied from the flow variable of the same name", loc(sfn), expected=want_, found=got)
+                        seen["flow"] += 1
+        chk.expect(seen["tank"] >= 1 and seen["res"] >= 1 and seen["jd"] == set(MODES) and seen["flow"] >= 1 and seen["leakT"] >= 2 and seen["leakJ"] >= 2,
+                   "R-C01-4", "store_results_in_network: all bookkeeping stores located", loc(sfn), found={k: (sorted(v) if isinstance(v, set) else v) for k, v in seen.items()})
 
-    # public properties read by save_results are the fields written above
-    for cls, prop, field in (("Node", "demand", "_demand"), ("Node", "leak_demand", "_leak_demand"), ("Link", "flow", "_flow"), ("Node", "head", "_head")):
-        f = repo.func(BASE, "%s.%s" % (cls, prop), kind="getter")
-        rets = [s for s in walk(f) if isinstance(s, ast.Return)]
-        chk.expect(len(rets) == 1 and dotted(resolve_local(f, rets[0].value)) == "self." + field, "R-C01-5d", "%s.%s returns the run-time field %s" % (cls, prop, field), loc(f), found=unparse(rets[0].value) if rets else None)
-    svf = repo.func(HYD, "save_results")
-    chk.fn(svf)
-    ex2 = SplitExec()
-    o2 = ex2.run(svf)
-    appends = {}
-    for o in o2:
-        lv = loop_vars(o)
-        for e in o.events:
-            if e[0] == "call" and ".append(" in e[1]:
-                m = re.match(r"^(node_res|link_res)\['(\w+)'\]\[(\w+)\]\.append\((.*)\)$", e[1])
-                ctx = e[4][-1] if len(e) > 4 and e[4] else ""
-                if m and len(lv.get(ctx, ())) == 2 and m.group(3) == lv[ctx][0]:
-                    # the reported value with the loop's element variable written `$o`
-                    appends.setdefault((ctx, m.group(2)), set()).add(re.sub(r"(?<![\w.])%s\b" % re.escape(lv[ctx][1]), "$o", m.group(4)))
-    for ctx in ("wn.junctions()", "wn.tanks()", "wn.reservoirs()"):
-        chk.expect(appends.get((ctx, "demand")) == {"$o.demand"}, "R-C01-5d", "save_results reports node.demand under 'demand' for %s" % ctx, loc(svf), found=appends.get((ctx, "demand")))
-    for ctx in ("wn.junctions()", "wn.tanks()"):
-        chk.expect(appends.get((ctx, "leak_demand")) == {"$o.leak_demand"}, "R-C01-5d", "save_results reports node.leak_demand under 'leak_demand' for %s" % ctx, loc(svf), found=appends.get((ctx, "leak_demand")))
-    for ctx in ("wn.pipes()", "wn.head_pumps()", "wn.power_pumps()", "wn.valves()"):
-        chk.expect(appends.get((ctx, "flowrate")) == {"$o.flow"}, "R-C01-5d", "save_results reports link.flow under 'flowrate' for %s" % ctx, loc(svf), found=appends.get((ctx, "flowrate")))
+        # public properties read by save_results are the fields written above
+        for cls, prop, field in (("Node", "demand", "_demand"), ("Node", "leak_demand", "_leak_demand"), ("Link", "flow", "_flow"), ("Node", "head", "_head")):
+            f = repo.func(BASE, "%s.%s" % (cls, prop), kind="getter")
+            rets = [s for s in walk(f) if isinstance(s, ast.Return)]
+            chk.expect(len(rets) == 1 and dotted(resolve_local(f, rets[0].value)) == "self." + field, "R-C01-5d", "%s.%s returns the run-time field %s" % (cls, prop, field), loc(f), found=unparse(rets[0].value) if rets else None)
+        svf = repo.func(HYD, "save_results")
+        chk.fn(svf)
+        ex2 = SplitExec()
+        o2 = ex2.run(svf)
+        appends = {}
+        for o in o2:
+            lv = loop_vars(o)
+            for e in o.events:
+                if e[0] == "call" and ".append(" in e[1]:
+                    m = re.match(r"^(node_res|link_res)\['(\w+)'\]\[(\w+)\]\.append\((.*)\)$", e[1])
+                    ctx = e[4][-1] if len(e) > 4 and e[4] else ""
+                    if m and len(lv.get(ctx, ())) == 2 and m.group(3) == lv[ctx][0]:
+                        # the reported value with the loop's element variable written `$o`
+                        appends.setdefault((ctx, m.group(2)), set()).add(re.sub(r"(?<![\w.])%s\b" % re.escape(lv[ctx][1]), "$o", m.group(4)))
+        for ctx in ("wn.junctions()", "wn.tanks()", "wn.reservoirs()"):
+            chk.expect(appends.get((ctx, "demand")) == {"$o.demand"}, "R-C01-5d", "save_results reports node.demand under 'demand' for %s" % ctx, loc(svf), found=appends.get((ctx, "demand")))
+        for ctx in ("wn.junctions()", "wn.tanks()"):
+            chk.expect(appends.get((ctx, "leak_demand")) == {"$o.leak_demand"}, "R-C01-5d", "save_results reports node.leak_demand under 'leak_demand' for %s" % ctx, loc(svf), found=appends.get((ctx, "leak_demand")))
+        for ctx in ("wn.pipes()", "wn.head_pumps()", "wn.power_pumps()", "wn.valves()"):
+            chk.expect(appends.get((ctx, "flowrate")) == {"$o.flow"}, "R-C01-5d", "save_results reports link.flow under 'flowrate' for %s" % ctx, loc(svf), found=appends.get((ctx, "flowrate")))
 
     # ---------------------------------------------------------------- R-C01-3 convention product
-    sig_hl = set()
-    for bname in ("approx_hazen_williams_headloss_constraint", "piecewise_hazen_williams_headloss_constraint", "head_pump_headloss_constraint",
-                  "power_pump_headloss_constraint", "tcv_headloss_constraint", "fcv_headloss_constraint", "prv_headloss_constraint", "psv_headloss_constraint"):
-        fn, paths, exb = B.run_builder(repo, CON, bname + ".build")
-        dictname = bname.replace("_constraint", "")
-        for p in paths:
-            if any(v and "LinkStatus.Closed or" in t for t, v in p.conds) or p.has("LinkStatus.Active", True):
-                continue
-            st = p.stores("m.%s[" % dictname)
-            if not st or not isinstance(st[-1][1], Constraint):
-                continue
-            e = st[-1][1].expr
-            e = e.final if isinstance(e, CondExpr) else e
-            R, _ = B.canon(exb.S(e))
-            qp = sp.Symbol("q", positive=True)
-            Rp = R.xreplace({B.Q: qp})
-            a, dq = sp.diff(Rp, B.HS), sp.diff(Rp, qp)
-            if dq.has(B.HE) or dq.has(B.HS):
-                sol = sp.solve(Rp, B.HE)
-                if len(sol) == 1:
-                    dq, a = dq.subs(B.HE, sol[0]), a.subs(B.HE, sol[0])
-            P = sp.simplify(-a * dq)
-            s = 1 if (P.is_positive or P.is_nonnegative) else (-1 if (P.is_negative or P.is_nonpositive) else 0)
-            sig_hl.add((bname, s))
-            break
-    hl = {s for b, s in sig_hl}
-    mb = set().union(*sig_mb.values()) if sig_mb else set()
-    prod_ok = len(hl) == 1 and len(mb) == 1 and sig_adj not in (0, None) and (list(hl)[0] * list(mb)[0] * sig_adj == 1)
-    if sig_adj is not None:
-        chk.expect(prod_ok, "R-C01-3", "sign conventions agree: balance row x INLET/OUTLET adjacency x link-row orientation = +1", loc(CON),
-                   "positive flow runs start->end, enters the END node, and is subtracted from the junction's demand as inflow; a single flip breaks conservation",
-                   expected="+1", found="balance %s, adjacency %s, link rows %s" % (sorted(map(int, mb)), sig_adj, sorted(sig_hl)))
-    chk.expect(len(sig_tank) == 1 and list(sig_tank)[0] * (list(mb)[0] if len(mb) == 1 else 0) == 1, "R-C01-3",
-               "tank/reservoir net inflow uses the same INLET-positive convention as the junction rows", loc(sfn), found="tank %s, balance %s" % (sorted(sig_tank), sorted(map(int, mb))))
+    with chk.part("R-C01-3 convention product"):
+        sig_hl = set()
+        for bname in ("approx_hazen_williams_headloss_constraint", "piecewise_hazen_williams_headloss_constraint", "head_pump_headloss_constraint",
+                      "power_pump_headloss_constraint", "tcv_headloss_constraint", "fcv_headloss_constraint", "prv_headloss_constraint", "psv_headloss_constraint"):
+            fn, paths, exb = B.run_builder(repo, CON, bname + ".build")
+            dictname = bname.replace("_constraint", "")
+            for p in paths:
+                if any(v and "LinkStatus.Closed or" in t for t, v in p.conds) or p.has("LinkStatus.Active", True):
+                    continue
+                st = p.stores("m.%s[" % dictname)
+                if not st or not isinstance(st[-1][1], Constraint):
+                    continue
+                e = st[-1][1].expr
+                e = e.final if isinstance(e, CondExpr) else e
+                R, _ = B.canon(exb.S(e))
+                qp = sp.Symbol("q", positive=True)
+                Rp = R.xreplace({B.Q: qp})
+                a, dq = sp.diff(Rp, B.HS), sp.diff(Rp, qp)
+                if dq.has(B.HE) or dq.has(B.HS):
+                    sol = sp.solve(Rp, B.HE)
+                    if len(sol) == 1:
+                        dq, a = dq.subs(B.HE, sol[0]), a.subs(B.HE, sol[0])
+                P = sp.simplify(-a * dq)
+                s = 1 if (P.is_positive or P.is_nonnegative) else (-1 if (P.is_negative or P.is_nonpositive) else 0)
+                sig_hl.add((bname, s))
+                break
+        hl = {s for b, s in sig_hl}
+        mb = set().union(*sig_mb.values()) if sig_mb else set()
+        prod_ok = len(hl) == 1 and len(mb) == 1 and sig_adj not in (0, None) and (list(hl)[0] * list(mb)[0] * sig_adj == 1)
+        if sig_adj is not None:
+            chk.expect(prod_ok, "R-C01-3", "sign conventions agree: balance row x INLET/OUTLET adjacency x link-row orientation = +1", loc(CON),
+                       "positive flow runs start->end, enters the END node, and is subtracted from the junction's demand as inflow; a single flip breaks conservation",
+                       expected="+1", found="balance %s, adjacency %s, link rows %s" % (sorted(map(int, mb)), sig_adj, sorted(sig_hl)))
+        chk.expect(len(sig_tank) == 1 and list(sig_tank)[0] * (list(mb)[0] if len(mb) == 1 else 0) == 1, "R-C01-3",
+                   "tank/reservoir net inflow uses the same INLET-positive convention as the junction rows", loc(sfn), found="tank %s, balance %s" % (sorted(sig_tank), sorted(map(int, mb))))
 
     # ---------------------------------------------------------------- R-C01-5a requested demand formulas
-    # Demands.at is evaluated on a fixture list with symbolic entry values: the result is the exact formula, whatever the loop structure
-    dat, rows = demands_at_table(repo)
-    chk.fn(dat)
-    for label, what, okd, want_, got in rows:
-        construct = {"all": "Demands.at = sum over entries of entry.at(time) * multiplier",
-                     "category": "Demands.at(category) sums the matching entries times the multiplier",
-                     "default-multiplier": "Demands.at: the default multiplier is 1"}[label]
-        chk.expect(okd, "R-C01-5a", construct, loc(dat), "fixture: six entries with categories None, 'ind', '', None, 'ind', 'res'; entry i has the value d_i(t); " + what,
-                   expected=want_, found=got)
-    tat = repo.func(ELEM, "TimeSeries.at")
-    chk.fn(tat)
-    ext = SplitExec()
-    seent = set()
-    for o in ext.run(tat):
-        pat = facts(o.conds).get("self.pattern")
-        if pat is None or o.raised:
-            continue
-        try:
-            r = ext.S(o.ret)
-        except ExtractError:
-            r = None
-        if pat:
-            chk.expect(r is not None and is_zero(r - ext.sym("self._base") * ext.sym("self.pattern.at(time)")), "R-C01-5a", "TimeSeries.at = base * pattern.at(time)", loc(tat), found=str(r))
-        else:
-            chk.expect(r is not None and r == ext.sym("self._base"), "R-C01-5a", "TimeSeries.at without pattern = base", loc(tat), found=str(r))
-        seent.add(bool(pat))
-    chk.expect(seent == {True, False}, "R-C01-5a", "TimeSeries.at: the paths with and without a pattern located", loc(tat), found=sorted(seent))
-    pat_fn = repo.func(ELEM, "Pattern.at")
-    chk.fn(pat_fn)
-    exp_ = SplitExec(assume=lambda t: {"integer": True, "nonnegative": True} if t.startswith("len(") else {"real": True})
-    seenp = set()
-    for o in exp_.run(pat_fn):
-        if o.raised:
-            continue
-        c = dict((t, v) for t, v in o.conds)
-        from ._shared import forced as _forced
-        n0 = _forced("len(self._multipliers) == 0", c)
-        n1 = _forced("len(self._multipliers) == 1", c)
-        wrap_ = _forced("self.wrap", c)
-        if n0:
-            chk.expect(o.ret == 1.0, "R-C01-5a", "Pattern.at of an empty pattern is 1.0", loc(pat_fn), found=o.ret)
-            seenp.add("empty")
-        elif n1 and isinstance(o.ret, Opaque) and o.ret.text == "self._multipliers[0]" and not any("pattern_timestep" in t for t in c):
-            # the one-value shortcut (taken before the step is computed): only a wrapping pattern repeats its single value for ever
-            chk.expect(wrap_ is True, "R-C01-5a", "Pattern.at: the one-value shortcut applies to wrapping patterns only", loc(pat_fn),
-                       "a non-wrapping pattern expires after its last step (documented: 0.0 once exhausted); returning the single multiplier at every time keeps e.g. a "
-                       "fire-fighting demand of one pattern step switched on for the rest of the simulation", expected="guarded by self.wrap", found=sorted(c.items()))
-            seenp.add("single")
-        elif wrap_ is False and c.get("self.wrap") is False:
-            # non-wrapping branch: 0.0 outside [0, n), multipliers[step] inside
-            if o.ret == 0.0 or o.ret == 0:
-                seenp.add("nowrap-outside")
-            elif isinstance(o.ret, Opaque) and o.ret.base is not None and o.ret.base.text == "self._multipliers":
-                seenp.add("nowrap-inside")
-        elif c.get("self.wrap") and c.get("self._time_options.pattern_interpolation") is False:
-            r = o.ret
-            okp = isinstance(r, Opaque) and r.base is not None and r.base.text == "self._multipliers" and isinstance(r.key, sp.Basic)
-            if okp:
-                key = r.key.replace(sp.Function("int"), lambda x: x)
-                t_, d_, n_ = exp_.sym("time"), exp_.sym("self._time_options.pattern_timestep"), exp_.sym("len(self._multipliers)")
-                okp = is_zero(key - sp.Mod(sp.floor(t_ / d_), n_))
-            chk.expect(bool(okp), "R-C01-5a", "Pattern.at (wrap) = multipliers[ floor(time / pattern_timestep) mod n ]", loc(pat_fn),
-                       found=str(getattr(r, "key", r)))
-            seenp.add("wrap")
-    chk.expect({"empty", "single", "wrap"} <= seenp, "R-C01-5a", "Pattern.at: empty / single / wrap paths located", loc(pat_fn), found=sorted(seenp))
-    chk.expect({"nowrap-outside", "nowrap-inside"} <= seenp, "R-C01-5a", "Pattern.at without wrap: 0.0 outside the pattern's steps, the step's multiplier inside", loc(pat_fn), found=sorted(seenp))
+    with chk.part("R-C01-5a requested demand formulas"):
+        # Demands.at is evaluated on a fixture list with symbolic entry values: the result is the exact formula, whatever the loop structure
+        dat, rows = demands_at_table(repo)
+        chk.fn(dat)
+        for label, what, okd, want_, got in rows:
+            construct = {"all": "Demands.at = sum over entries of entry.at(time) * multiplier",
+                         "category": "Demands.at(category) sums the matching entries times the multiplier",
+                         "default-multiplier": "Demands.at: the default multiplier is 1"}[label]
+            chk.expect(okd, "R-C01-5a", construct, loc(dat), "fixture: six entries with categories None, 'ind', '', None, 'ind', 'res'; entry i has the value d_i(t); " + what,
+                       expected=want_, found=got)
+        tat = repo.func(ELEM, "TimeSeries.at")
+        chk.fn(tat)
+        ext = SplitExec()
+        seent = set()
+        for o in ext.run(tat):
+            pat = facts(o.conds).get("self.pattern")
+            if pat is None or o.raised:
+                continue
+            try:
+                r = ext.S(o.ret)
+            except ExtractError:
+                r = None
+            if pat:
+                chk.expect(r is not None and is_zero(r - ext.sym("self._base") * ext.sym("self.pattern.at(time)")), "R-C01-5a", "TimeSeries.at = base * pattern.at(time)", loc(tat), found=str(r))
+            else:
+                chk.expect(r is not None and r == ext.sym("self._base"), "R-C01-5a", "TimeSeries.at without pattern = base", loc(tat), found=str(r))
+            seent.add(bool(pat))
+        chk.expect(seent == {True, False}, "R-C01-5a", "TimeSeries.at: the paths with and without a pattern located", loc(tat), found=sorted(seent))
+        pat_fn = repo.func(ELEM, "Pattern.at")
+        chk.fn(pat_fn)
+        exp_ = SplitExec(assume=lambda t: {"integer": True, "nonnegative": True} if t.startswith("len(") else {"real": True})
+        seenp = set()
+        for o in exp_.run(pat_fn):
+            if o.raised:
+                continue
+            c = dict((t, v) for t, v in o.conds)
+            from ._shared import forced as _forced
+            n0 = _forced("len(self._multipliers) == 0", c)
+            n1 = _forced("len(self._multipliers) == 1", c)
+            wrap_ = _forced("self.wrap", c)
+            if n0:
+                chk.expect(o.ret == 1.0, "R-C01-5a", "Pattern.at of an empty pattern is 1.0", loc(pat_fn), found=o.ret)
+                seenp.add("empty")
+            elif n1 and isinstance(o.ret, Opaque) and o.ret.text == "self._multipliers[0]" and not any("pattern_timestep" in t for t in c):
+                # the one-value shortcut (taken before the step is computed): only a wrapping pattern repeats its single value for ever
+                chk.expect(wrap_ is True, "R-C01-5a", "Pattern.at: the one-value shortcut applies to wrapping patterns only", loc(pat_fn),
+                           "a non-wrapping pattern expires after its last step (documented: 0.0 once exhausted); returning the single multiplier at every time keeps e.g. a "
+                           "fire-fighting demand of one pattern step switched on for the rest of the simulation", expected="guarded by self.wrap", found=sorted(c.items()))
+                seenp.add("single")
+            elif wrap_ is False and c.get("self.wrap") is False:
+                # non-wrapping branch: 0.0 outside [0, n), multipliers[step] inside
+                if o.ret == 0.0 or o.ret == 0:
+                    seenp.add("nowrap-outside")
+                elif isinstance(o.ret, Opaque) and o.ret.base is not None and o.ret.base.text == "self._multipliers":
+                    seenp.add("nowrap-inside")
+            elif c.get("self.wrap") and c.get("self._time_options.pattern_interpolation") is False:
+                r = o.ret
+                okp = isinstance(r, Opaque) and r.base is not None and r.base.text == "self._multipliers" and isinstance(r.key, sp.Basic)
+                if okp:
+                    key = r.key.replace(sp.Function("int"), lambda x: x)
+                    t_, d_, n_ = exp_.sym("time"), exp_.sym("self._time_options.pattern_timestep"), exp_.sym("len(self._multipliers)")
+                    okp = is_zero(key - sp.Mod(sp.floor(t_ / d_), n_))
+                chk.expect(bool(okp), "R-C01-5a", "Pattern.at (wrap) = multipliers[ floor(time / pattern_timestep) mod n ]", loc(pat_fn),
+                           found=str(getattr(r, "key", r)))
+                seenp.add("wrap")
+        chk.expect({"empty", "single", "wrap"} <= seenp, "R-C01-5a", "Pattern.at: empty / single / wrap paths located", loc(pat_fn), found=sorted(seenp))
+        chk.expect({"nowrap-outside", "nowrap-inside"} <= seenp, "R-C01-5a", "Pattern.at without wrap: 0.0 outside the pattern's steps, the step's multiplier inside", loc(pat_fn), found=sorted(seenp))
 
     # ---------------------------------------------------------------- R-C01-5b demand clock at every call site in wntr.sim
-    def demand_call(txt):
-        """receiver text if txt is `<receiver>.demand_timeseries_list.at(...)` itself (not a call that merely has one among its arguments)"""
-        head = txt.split(".demand_timeseries_list.at(", 1)
-        if len(head) == 2 and head[0].count("(") == head[0].count(")") and head[0].count("[") == head[0].count("]") and " " not in head[0]:
-            return head[0]
-        return None
-    site_fns = set()
-    for rel in repo.modules("wntr/sim"):
-        t = repo.tree(rel)
-        for fn in [n for n in ast.walk(t) if isinstance(n, ast.FunctionDef)]:
-            if not any(isinstance(n, ast.Attribute) and n.attr == "demand_timeseries_list" for n in walk(fn)) or not calls(fn, attr="at"):
-                continue
-            sites = [c for c in calls(fn, attr="at") if isinstance(resolve_local(fn, c.func.value), ast.Attribute) and resolve_local(fn, c.func.value).attr == "demand_timeseries_list"]
-            if not sites:
-                continue
-            fn._rel = rel
-            fn._qual = fn.name
-            chk.fn(fn)
-            exs = SplitExec(test_hook=B.std_test_hook)
-            seen_sites = set()
-            for o in exs.run(fn) + SplitExec(test_hook=lambda t_, n_, s_: (True if t_.startswith("hasattr(") else B.std_test_hook(t_, n_, s_))).run(fn):
-                for e in o.events:
-                    if e[0] == "call" and demand_call(e[1]) is not None and (e[3], e[1]) not in seen_sites:
-                        seen_sites.add((e[3], e[1]))
-                        site_fns.add((rel, fn.name))
+    with chk.part("R-C01-5b demand clock at every call site in wntr.sim"):
+        def demand_call(txt):
+            """receiver text if txt is `<receiver>.demand_timeseries_list.at(...)` itself (not a call that merely has one among its arguments)"""
+            head = txt.split(".demand_timeseries_list.at(", 1)
+            if len(head) == 2 and head[0].count("(") == head[0].count(")") and head[0].count("[") == head[0].count("]") and " " not in head[0]:
+                return head[0]
+            return None
+        site_fns = set()
+        for rel in repo.modules("wntr/sim"):
+            t = repo.tree(rel)
+            for fn in [n for n in ast.walk(t) if isinstance(n, ast.FunctionDef)]:
+                if not any(isinstance(n, ast.Attribute) and n.attr == "demand_timeseries_list" for n in walk(fn)) or not calls(fn, attr="at"):
+                    continue
+                sites = [c for c in calls(fn, attr="at") if isinstance(resolve_local(fn, c.func.value), ast.Attribute) and resolve_local(fn, c.func.value).attr == "demand_timeseries_list"]
+                if not sites:
+                    continue
+                fn._rel = rel
+                fn._qual = fn.name
+                chk.fn(fn)
+                exs = SplitExec(test_hook=B.std_test_hook)
+                seen_sites = set()
+                for o in exs.run(fn) + SplitExec(test_hook=lambda t_, n_, s_: (True if t_.startswith("hasattr(") else B.std_test_hook(t_, n_, s_))).run(fn):
+                    for e in o.events:
+                        if e[0] == "call" and demand_call(e[1]) is not None and (e[3], e[1]) not in seen_sites:
+                            seen_sites.add((e[3], e[1]))
+                            site_fns.add((rel, fn.name))
+                            name, args, kwargs = e[2]
+                            targ = args[0] if args else kwargs.get("time")
+                            try:
+                                tv = sp.expand(exs.S(targ))
+                            except ExtractError:
+                                tv = None
+                            want_t = exs.sym("wn.sim_time") + exs.sym("wn.options.time.pattern_start")
+                            chk.expect(tv is not None and is_zero(tv - want_t), "R-C01-5b", "%s:%s line-site passes sim_time + pattern_start as the demand clock" % (rel, fn.name), "%s:%d" % (rel, e[3]),
+                                       "requested demand is evaluated at simulation time shifted by options.time.pattern_start", expected=str(want_t), found=str(tv))
+                            mult = kwargs.get("multiplier", args[2] if len(args) > 2 else None)
+                            chk.expect(isinstance(mult, Opaque) and mult.text == "wn.options.hydraulic.demand_multiplier", "R-C01-5b",
+                                       "%s:%s passes the global demand multiplier" % (rel, fn.name), "%s:%d" % (rel, e[3]), found=mult)
+                            cat = kwargs.get("category", args[1] if len(args) > 1 else None)
+                            chk.expect(cat is None, "R-C01-5b", "%s:%s sums all demand categories" % (rel, fn.name), "%s:%d" % (rel, e[3]), found=cat)
+                missed = {c.lineno for c in sites} - {ln for ln, _ in seen_sites}
+                if missed:
+                    chk.error("R-C01-5b: demand_timeseries_list.at call sites at lines %s of %s:%s were not reached by the extractor" % (sorted(missed), rel, fn.name))
+        # the value the refresh stores for a junction is that junction's own requested demand (one of the call sites checked above), on every path
+        edp = repo.func(PAR, "expected_demand_param")
+        exq = SplitExec()
+        nstore = 0
+        for o in exq.run(edp):
+            lv = loop_vars(o)
+            param_arg = {e[1]: e[2][1][0] for e in o.events if e[0] == "call" and (e[2][0] or "").split(".")[-1] == "Param" and len(e[2][1]) == 1}
+            for e in o.events:
+                if e[0] != "store" or not e[1].startswith("m.expected_demand["):
+                    continue
+                ctx = e[4][-1] if len(e) > 4 and e[4] else ""
+                m_ = re.match(r"^m\.expected_demand\[(\w+)\](\.value)?$", e[1])
+                v = e[2]
+                if m_ and not m_.group(2) and isinstance(v, Opaque) and v.text in param_arg:
+                    v = param_arg[v.text]           # m.expected_demand[k] = aml.Param(v)
+                okq = bool(m_) and len(lv.get(ctx, ())) == 2 and ctx == "wn.junctions()" and m_.group(1) == lv[ctx][0] and isinstance(v, Opaque) and demand_call(v.text) == lv[ctx][1]
+                chk.expect(okq, "R-C01-5b", "expected_demand_param stores, under the junction's name, that junction's demand_timeseries_list.at(...)", loc(edp),
+                           "the requested-demand parameter of junction k is k's own demand list evaluated at the demand clock", found="%s = %s [loop %s]" % (e[1], val_text(e[2]), ctx))
+                nstore += 1
+        chk.expect(nstore >= 2 and (PAR, "expected_demand_param") in site_fns, "R-C01-5b", "expected_demand_param: the stores of the requested demand located (creation and refresh)", loc(edp), found=nstore)
+        chk.expect((VAR, "demand_var") in site_fns, "R-C01-5b", "demand_var initialises the demand variable from the requested demand", loc(VAR), found=sorted(site_fns))
+        chk.floor("R-C01-5b", 8)
+
+    # ---------------------------------------------------------------- R-C01-7 every node's balance row and parameters are built from that node's own data
+    with chk.part("R-C01-7 every node's balance row and parameters are built from that node's own data"):
+        B.check_loop_independence(repo, chk, "R-C01-7", [(CON, "mass_balance_constraint.build"), (CON, "pdd_mass_balance_constraint.build"), (PAR, "expected_demand_param"),
+                                                        (PAR, "source_head_param"), (PAR, "elevation_param.build"), (VAR, "head_var"), (VAR, "demand_var")], "node")
+        chk.floor("R-C01-7", 7)
+
+    # ---------------------------------------------------------------- R-C01-5f one pattern clock for every time series evaluated in wntr.sim
+    with chk.part("R-C01-5f one pattern clock for every time series evaluated in wntr.sim"):
+        # EPANET offsets EVERY pattern by options.time.pattern_start.  Every `<obj>.at(t)` call in wntr.sim (head / demand / speed time series, patterns)
+        # whose time argument depends on the simulation clock must therefore pass sim_time + pattern_start -- the same clock at every site.  The time
+        # argument is the symbolic value that reaches the call (temporaries followed, positional or `time=`), not its spelling.
+        def at_call(txt):
+            """receiver text if the call text is `<receiver>.at(...)` itself"""
+            head = txt.split(".at(", 1)
+            if len(head) == 2 and head[0].count("(") == head[0].count(")") and head[0].count("[") == head[0].count("]") and " " not in head[0]:
+                return head[0]
+            return None
+        clocks = {}            # normalised clock text -> [site]
+        clock_sites = set()    # (module, function, time-series attribute) evaluated against the simulation clock
+        for rel in repo.modules("wntr/sim"):
+            t = repo.tree(rel)
+            for fn in [n for n in ast.walk(t) if isinstance(n, ast.FunctionDef)]:
+                sites = calls(fn, attr="at")
+                if not sites:
+                    continue
+                fn._rel = rel
+                fn._qual = fn.name
+                chk.fn(fn)
+                exs = SplitExec(test_hook=B.std_test_hook)
+                reached, done = set(), set()
+                for o in exs.run(fn) + SplitExec(test_hook=lambda t_, n_, s_: (True if t_.startswith("hasattr(") else B.std_test_hook(t_, n_, s_))).run(fn):
+                    for e in o.events:
+                        if e[0] != "call" or (e[2][0] or "").split(".")[-1] != "at" or at_call(e[1]) is None:
+                            continue
+                        reached.add(e[3])
+                        if (e[3], e[1]) in done:
+                            continue
+                        done.add((e[3], e[1]))
                         name, args, kwargs = e[2]
                         targ = args[0] if args else kwargs.get("time")
                         try:
                             tv = sp.expand(exs.S(targ))
                         except ExtractError:
                             tv = None
-                        want_t = exs.sym("wn.sim_time") + exs.sym("wn.options.time.pattern_start")
-                        chk.expect(tv is not None and is_zero(tv - want_t), "R-C01-5b", "%s:%s line-site passes sim_time + pattern_start as the demand clock" % (rel, fn.name), "%s:%d" % (rel, e[3]),
-                                   "requested demand is evaluated at simulation time shifted by options.time.pattern_start", expected=str(want_t), found=str(tv))
-                        mult = kwargs.get("multiplier", args[2] if len(args) > 2 else None)
-                        chk.expect(isinstance(mult, Opaque) and mult.text == "wn.options.hydraulic.demand_multiplier", "R-C01-5b",
-                                   "%s:%s passes the global demand multiplier" % (rel, fn.name), "%s:%d" % (rel, e[3]), found=mult)
-                        cat = kwargs.get("category", args[1] if len(args) > 1 else None)
-                        chk.expect(cat is None, "R-C01-5b", "%s:%s sums all demand categories" % (rel, fn.name), "%s:%d" % (rel, e[3]), found=cat)
-            missed = {c.lineno for c in sites} - {ln for ln, _ in seen_sites}
-            if missed:
-                chk.error("R-C01-5b: demand_timeseries_list.at call sites at lines %s of %s:%s were not reached by the extractor" % (sorted(missed), rel, fn.name))
-    # the value the refresh stores for a junction is that junction's own requested demand (one of the call sites checked above), on every path
-    edp = repo.func(PAR, "expected_demand_param")
-    exq = SplitExec()
-    nstore = 0
-    for o in exq.run(edp):
-        lv = loop_vars(o)
-        param_arg = {e[1]: e[2][1][0] for e in o.events if e[0] == "call" and (e[2][0] or "").split(".")[-1] == "Param" and len(e[2][1]) == 1}
-        for e in o.events:
-            if e[0] != "store" or not e[1].startswith("m.expected_demand["):
+                        simt = sorted(s.name for s in tv.free_symbols if s.name == "sim_time" or s.name.endswith(".sim_time")) if tv is not None else []
+                        if tv is None or not simt:
+                            # not an evaluation against the simulation clock (or not a number): outside this rule
+                            chk.note("R-C01-5f: %s:%d %s is not evaluated at a time that depends on sim_time (argument %s)" % (rel, e[3], at_call(e[1]) + ".at", val_text(targ)))
+                            continue
+                        pre = simt[0][:-len("sim_time")]              # `wn.` / `self._wn.`: the model whose clock is read
+                        want_t = exs.sym(pre + "sim_time") + exs.sym(pre + "options.time.pattern_start")
+                        chk.expect(len(simt) == 1 and is_zero(tv - want_t), "R-C01-5f", "%s:%s evaluates %s at sim_time + pattern_start (the pattern clock)" % (rel, fn.name, re.sub(r"^.*\.", "", at_call(e[1])) + ".at"),
+                                   "%s:%d" % (rel, e[3]), "EPANET offsets every pattern by options.time.pattern_start: a time series evaluated at the bare simulation time lags the demand patterns "
+                                   "by pattern_start (a reservoir head pattern then drives the wrong head into the balance of every step)", expected=str(want_t), found=str(tv))
+                        clock_sites.add((rel, fn.name, re.sub(r"^.*\.", "", at_call(e[1]))))
+                        norm_clock = str(tv.xreplace({s: sp.Symbol(s.name[len(pre):] if s.name.startswith(pre) else s.name) for s in tv.free_symbols}))
+                        clocks.setdefault(norm_clock, []).append("%s:%d" % (rel, e[3]))
+                missed = {c.lineno for c in sites} - reached
+                if missed:
+                    chk.error("R-C01-5f: .at(...) call sites at lines %s of %s:%s were not reached by the extractor" % (sorted(missed), rel, fn.name))
+        chk.expect(len(clocks) == 1, "R-C01-5f", "every time series evaluated against the simulation clock in wntr.sim uses the same pattern clock", loc(PAR),
+                   "sibling agreement: head, demand and any other pattern are read at one and the same clock", expected="one clock at all sites",
+                   found="; ".join("%s at %s" % (k, ", ".join(v)) for k, v in sorted(clocks.items())))
+        # the sweep is not vacuous: the reservoir-head and demand evaluations the balance depends on were among the sites (however many copies there are)
+        need = {(PAR, "source_head_param", "head_timeseries"), (HYD, "store_results_in_network", "head_timeseries"), (PAR, "expected_demand_param", "demand_timeseries_list")}
+        chk.expect(need <= clock_sites, "R-C01-5f", "the reservoir-head and requested-demand evaluations of wntr.sim located", loc(PAR), found=sorted(need - clock_sites))
+        # evaluations against a simulation clock outside wntr.sim are not decided here: listed for the record
+        outside = []
+        for rel in repo.modules():
+            if rel.startswith("wntr/sim/"):
                 continue
-            ctx = e[4][-1] if len(e) > 4 and e[4] else ""
-            m_ = re.match(r"^m\.expected_demand\[(\w+)\](\.value)?$", e[1])
-            v = e[2]
-            if m_ and not m_.group(2) and isinstance(v, Opaque) and v.text in param_arg:
-                v = param_arg[v.text]           # m.expected_demand[k] = aml.Param(v)
-            okq = bool(m_) and len(lv.get(ctx, ())) == 2 and ctx == "wn.junctions()" and m_.group(1) == lv[ctx][0] and isinstance(v, Opaque) and demand_call(v.text) == lv[ctx][1]
-            chk.expect(okq, "R-C01-5b", "expected_demand_param stores, under the junction's name, that junction's demand_timeseries_list.at(...)", loc(edp),
-                       "the requested-demand parameter of junction k is k's own demand list evaluated at the demand clock", found="%s = %s [loop %s]" % (e[1], val_text(e[2]), ctx))
-            nstore += 1
-    chk.expect(nstore >= 2 and (PAR, "expected_demand_param") in site_fns, "R-C01-5b", "expected_demand_param: the stores of the requested demand located (creation and refresh)", loc(edp), found=nstore)
-    chk.expect((VAR, "demand_var") in site_fns, "R-C01-5b", "demand_var initialises the demand variable from the requested demand", loc(VAR), found=sorted(site_fns))
-    chk.floor("R-C01-5b", 8)
-
-    # ---------------------------------------------------------------- R-C01-7 every node's balance row and parameters are built from that node's own data
-    B.check_loop_independence(repo, chk, "R-C01-7", [(CON, "mass_balance_constraint.build"), (CON, "pdd_mass_balance_constraint.build"), (PAR, "expected_demand_param"),
-                                                    (PAR, "source_head_param"), (PAR, "elevation_param.build"), (VAR, "head_var"), (VAR, "demand_var")], "node")
-    chk.floor("R-C01-7", 7)
-
-    # ---------------------------------------------------------------- R-C01-5f one pattern clock for every time series evaluated in wntr.sim
-    # EPANET offsets EVERY pattern by options.time.pattern_start.  Every `<obj>.at(t)` call in wntr.sim (head / demand / speed time series, patterns)
-    # whose time argument depends on the simulation clock must therefore pass sim_time + pattern_start -- the same clock at every site.  The time
-    # argument is the symbolic value that reaches the call (temporaries followed, positional or `time=`), not its spelling.
-    def at_call(txt):
-        """receiver text if the call text is `<receiver>.at(...)` itself"""
-        head = txt.split(".at(", 1)
-        if len(head) == 2 and head[0].count("(") == head[0].count(")") and head[0].count("[") == head[0].count("]") and " " not in head[0]:
-            return head[0]
-        return None
-    clocks = {}            # normalised clock text -> [site]
-    clock_sites = set()    # (module, function, time-series attribute) evaluated against the simulation clock
-    for rel in repo.modules("wntr/sim"):
-        t = repo.tree(rel)
-        for fn in [n for n in ast.walk(t) if isinstance(n, ast.FunctionDef)]:
-            sites = calls(fn, attr="at")
-            if not sites:
+            try:
+                t = repo.tree(rel)
+            except AnchorError:
                 continue
-            fn._rel = rel
-            fn._qual = fn.name
-            chk.fn(fn)
-            exs = SplitExec(test_hook=B.std_test_hook)
-            reached, done = set(), set()
-            for o in exs.run(fn) + SplitExec(test_hook=lambda t_, n_, s_: (True if t_.startswith("hasattr(") else B.std_test_hook(t_, n_, s_))).run(fn):
-                for e in o.events:
-                    if e[0] != "call" or (e[2][0] or "").split(".")[-1] != "at" or at_call(e[1]) is None:
-                        continue
-                    reached.add(e[3])
-                    if (e[3], e[1]) in done:
-                        continue
-                    done.add((e[3], e[1]))
-                    name, args, kwargs = e[2]
-                    targ = args[0] if args else kwargs.get("time")
-                    try:
-                        tv = sp.expand(exs.S(targ))
-                    except ExtractError:
-                        tv = None
-                    simt = sorted(s.name for s in tv.free_symbols if s.name == "sim_time" or s.name.endswith(".sim_time")) if tv is not None else []
-                    if tv is None or not simt:
-                        # not an evaluation against the simulation clock (or not a number): outside this rule
-                        chk.note("R-C01-5f: %s:%d %s is not evaluated at a time that depends on sim_time (argument %s)" % (rel, e[3], at_call(e[1]) + ".at", val_text(targ)))
-                        continue
-                    pre = simt[0][:-len("sim_time")]              # `wn.` / `self._wn.`: the model whose clock is read
-                    want_t = exs.sym(pre + "sim_time") + exs.sym(pre + "options.time.pattern_start")
-                    chk.expect(len(simt) == 1 and is_zero(tv - want_t), "R-C01-5f", "%s:%s evaluates %s at sim_time + pattern_start (the pattern clock)" % (rel, fn.name, re.sub(r"^.*\.", "", at_call(e[1])) + ".at"),
-                               "%s:%d" % (rel, e[3]), "EPANET offsets every pattern by options.time.pattern_start: a time series evaluated at the bare simulation time lags the demand patterns "
-                               "by pattern_start (a reservoir head pattern then drives the wrong head into the balance of every step)", expected=str(want_t), found=str(tv))
-                    clock_sites.add((rel, fn.name, re.sub(r"^.*\.", "", at_call(e[1]))))
-                    norm_clock = str(tv.xreplace({s: sp.Symbol(s.name[len(pre):] if s.name.startswith(pre) else s.name) for s in tv.free_symbols}))
-                    clocks.setdefault(norm_clock, []).append("%s:%d" % (rel, e[3]))
-            missed = {c.lineno for c in sites} - reached
-            if missed:
-                chk.error("R-C01-5f: .at(...) call sites at lines %s of %s:%s were not reached by the extractor" % (sorted(missed), rel, fn.name))
-    chk.expect(len(clocks) == 1, "R-C01-5f", "every time series evaluated against the simulation clock in wntr.sim uses the same pattern clock", loc(PAR),
-               "sibling agreement: head, demand and any other pattern are read at one and the same clock", expected="one clock at all sites",
-               found="; ".join("%s at %s" % (k, ", ".join(v)) for k, v in sorted(clocks.items())))
-    # the sweep is not vacuous: the reservoir-head and demand evaluations the balance depends on were among the sites (however many copies there are)
-    need = {(PAR, "source_head_param", "head_timeseries"), (HYD, "store_results_in_network", "head_timeseries"), (PAR, "expected_demand_param", "demand_timeseries_list")}
-    chk.expect(need <= clock_sites, "R-C01-5f", "the reservoir-head and requested-demand evaluations of wntr.sim located", loc(PAR), found=sorted(need - clock_sites))
-    # evaluations against a simulation clock outside wntr.sim are not decided here: listed for the record
-    outside = []
-    for rel in repo.modules():
-        if rel.startswith("wntr/sim/"):
-            continue
-        try:
-            t = repo.tree(rel)
-        except AnchorError:
-            continue
-        for c in [n for n in ast.walk(t) if isinstance(n, ast.Call) and isinstance(n.func, ast.Attribute) and n.func.attr == "at"]:
-            a0 = c.args[0] if c.args else next((k.value for k in c.keywords if k.arg == "time"), None)
-            if a0 is not None and "sim_time" in unparse(a0):
-                outside.append("%s:%d %s" % (rel, c.lineno, norm(c)))
-    if outside:
-        chk.note("R-C01-5f out of scope (outside wntr.sim, evaluated at a simulation clock): " + "; ".join(outside))
+            for c in [n for n in ast.walk(t) if isinstance(n, ast.Call) and isinstance(n.func, ast.Attribute) and n.func.attr == "at"]:
+                a0 = c.args[0] if c.args else next((k.value for k in c.keywords if k.arg == "time"), None)
+                if a0 is not None and "sim_time" in unparse(a0):
+                    outside.append("%s:%d %s" % (rel, c.lineno, norm(c)))
+        if outside:
+            chk.note("R-C01-5f out of scope (outside wntr.sim, evaluated at a simulation clock): " + "; ".join(outside))
 
     # ---------------------------------------------------------------- R-C01-5c refresh before every solve
-    rs = repo.func(CORE, "WNTRSimulator.run_sim")
-    chk.fn(rs)
-    g = CFG(rs)
-    heads = [h for n, h in g.loop_heads.items() if isinstance(n, ast.While)]
-    if len(heads) != 1:
-        raise AnchorError("run_sim: expected exactly one while loop, found %d" % len(heads))
-    head = heads[0]
-    solves = g.calling("_solver_helper")
-    if not solves:
-        raise AnchorError("run_sim: no _solver_helper call")
-    for pname in ("expected_demand_param", "source_head_param"):
-        via = g.calling(pname)
-        okp, w = g.must_pass(head, solves[:1], via, drop_back=True)
-        chk.expect(bool(via) and okp, "R-C01-5c", "run_sim: every iteration refreshes %s before the solve" % pname, loc(rs),
-                   "the demand / source-head parameters must be re-evaluated at the step's final time before each solve",
-                   found="path avoiding it: " + g.path_text(w) if w else "no call of %s in run_sim" % pname)
-    # R-C01-6: a connected junction receives its demand: it must not be declared isolated.  The encoding of the connectivity graph is decided by
-    # C09; the clauses that bear on the DD demand sentence are decided here from what the function hands to the sparse-matrix constructor
-    # (status -> entry on every path, both directions) and from the collection of parallel links
-    ig_ = repo.func(CORE, "WNTRSimulator._initialize_internal_graph")
-    chk.fn(ig_)
-    pair_rule(repo, ig_, chk, "R-C01-6")
-    ents = graph_entries(repo, ig_)
-    if not ents:
-        raise AnchorError("_initialize_internal_graph: status encoding not found (no sparse matrix built from (data, (rows, cols)))")
-    bad_ = []
-    seen_c = set()
-    for closed, data, rc, label in ents:
-        symm = len(rc) == 2 and rc[0] == (rc[1][1], rc[1][0]) and rc[0][0] != rc[0][1] and len(data) == 2
-        want_d = None if closed is None else ([0, 0] if closed else [1, 1])
-        if not symm or data != want_d:
-            bad_.append("closed=%s data=%s at %s on path %s" % (closed, data, rc, label[-120:]))
-        seen_c.add(closed)
-    chk.expect(not bad_ and seen_c == {True, False}, "R-C01-6", "a link that is not closed always counts as a connection (the demand of a connected junction is never zeroed)", loc(ig_),
-               "the graph entry of a link, in both directions, is 0 exactly when link.status is Closed and 1 otherwise, whatever else is true of the link",
-               expected="closed -> [0, 0] / not closed -> [1, 1] at (a, b) and (b, a)", found="; ".join(bad_[:3]) or sorted(map(str, seen_c)))
-    # R-C01-5e: the refresh is unconditional per element: on every way round an element loop of expected_demand_param / source_head_param
-    # the parameter of that element is (re)assigned -- no `continue` or guard may leave a stale value from an earlier time -- and every call
-    # of the function (first call: creation, later calls: refresh) runs through such a loop for each kind of element
-    for pname, dictname, kinds in (("expected_demand_param", "expected_demand", ("junction",)), ("source_head_param", "source_head", ("tank", "reservoir"))):
-        pf = repo.func(PAR, pname)
-        chk.fn(pf)
-        pg = CFG(pf)
-        good = {k: [] for k in kinds}
-        for lnode, lhead in pg.loop_heads.items():
-            if not isinstance(lnode, ast.For):
-                continue
-            it = unparse(resolve_local(pf, lnode.iter))
-            kind = [k for k in kinds if re.search(r"\bwn\.(%ss\(\)|%s_name_list\b)" % (k, k), it)]
-            if len(kind) != 1:
-                continue
-            body_nodes = set()
-            for st in lnode.body:
-                for x in ast.walk(st):
-                    body_nodes.add(id(x))
-            stores = pg.nodes_where(lambda node, d: id(node) in body_nodes and isinstance(node, ast.Assign) and
-                                    any(unparse(t).startswith("m.%s[" % dictname) for t in node.targets))
-            firsts = pg.succ_on(lhead, True)
-            w = None
-            for f0 in firsts:
-                w = w or pg.can_reach_avoiding(f0, {lhead}, stores)
-            chk.expect(bool(stores) and w is None, "R-C01-5e", "%s: every pass of the loop `for ... in %s` assigns m.%s[...] (no element keeps a stale value)" % (
-                pname, it, dictname), loc(pf, lnode),
-                       "the requested demand / source head must be re-evaluated for every element at every step",
-                       found=("path skipping the assignment: " + pg.path_text(w)) if w else "no assignment of m.%s[...] in the loop" % dictname)
-            if stores and w is None:
-                good[kind[0]].append(lhead)
-        for k in kinds:
-            okp, w = pg.must_pass(pg.entry, {pg.exit}, good[k])
-            chk.expect(bool(good[k]) and okp, "R-C01-5e", "%s: every call runs through a loop over all %ss that assigns m.%s[...]" % (pname, k, dictname), loc(pf),
-                       "whether the parameters are being created or refreshed, every %s gets its value for the current time" % k,
-                       found=("path without such a loop: " + pg.path_text(w)) if w else "no loop over wn.%ss() that always assigns" % k)
-    # the refresh itself writes .value of every junction's parameter from the same call (checked in 5b) and create_hydraulic_model builds it
-    chm = repo.func(HYD, "create_hydraulic_model")
-    chk.expect(any(last_attr(c) == "expected_demand_param" for c in calls(chm)), "R-C01-5c", "create_hydraulic_model builds the expected_demand parameter", loc(chm))
+    with chk.part("R-C01-5c refresh before every solve"):
+        rs = repo.func(CORE, "WNTRSimulator.run_sim")
+        chk.fn(rs)
+        g = CFG(rs)
+        heads = [h for n, h in g.loop_heads.items() if isinstance(n, ast.While)]
+        if len(heads) != 1:
+            raise AnchorError("run_sim: expected exactly one while loop, found %d" % len(heads))
+        head = heads[0]
+        solves = g.calling("_solver_helper")
+        if not solves:
+            raise AnchorError("run_sim: no _solver_helper call")
+        for pname in ("expected_demand_param", "source_head_param"):
+            via = g.calling(pname)
+            okp, w = g.must_pass(head, solves[:1], via, drop_back=True)
+            chk.expect(bool(via) and okp, "R-C01-5c", "run_sim: every iteration refreshes %s before the solve" % pname, loc(rs),
+                       "the demand / source-head parameters must be re-evaluated at the step's final time before each solve",
+                       found="path avoiding it: " + g.path_text(w) if w else "no call of %s in run_sim" % pname)
+        # R-C01-6: a connected junction receives its demand: it must not be declared isolated.  The encoding of the connectivity graph is decided by
+        # C09; the clauses that bear on the DD demand sentence are decided here from what the function hands to the sparse-matrix constructor
+        # (status -> entry on every path, both directions) and from the collection of parallel links
+        ig_ = repo.func(CORE, "WNTRSimulator._initialize_internal_graph")
+        chk.fn(ig_)
+        pair_rule(repo, ig_, chk, "R-C01-6")
+        ents = graph_entries(repo, ig_)
+        if not ents:
+            raise AnchorError("_initialize_internal_graph: status encoding not found (no sparse matrix built from (data, (rows, cols)))")
+        bad_ = []
+        seen_c = set()
+        for closed, data, rc, label in ents:
+            symm = len(rc) == 2 and rc[0] == (rc[1][1], rc[1][0]) and rc[0][0] != rc[0][1] and len(data) == 2
+            want_d = None if closed is None else ([0, 0] if closed else [1, 1])
+            if not symm or data != want_d:
+                bad_.append("closed=%s data=%s at %s on path %s" % (closed, data, rc, label[-120:]))
+            seen_c.add(closed)
+        chk.expect(not bad_ and seen_c == {True, False}, "R-C01-6", "a link that is not closed always counts as a connection (the demand of a connected junction is never zeroed)", loc(ig_),
+                   "the graph entry of a link, in both directions, is 0 exactly when link.status is Closed and 1 otherwise, whatever else is true of the link",
+                   expected="closed -> [0, 0] / not closed -> [1, 1] at (a, b) and (b, a)", found="; ".join(bad_[:3]) or sorted(map(str, seen_c)))
+        # R-C01-5e: the refresh is unconditional per element: on every way round an element loop of expected_demand_param / source_head_param
+        # the parameter of that element is (re)assigned -- no `continue` or guard may leave a stale value from an earlier time -- and every call
+        # of the function (first call: creation, later calls: refresh) runs through such a loop for each kind of element
+        for pname, dictname, kinds in (("expected_demand_param", "expected_demand", ("junction",)), ("source_head_param", "source_head", ("tank", "reservoir"))):
+            pf = repo.func(PAR, pname)
+            chk.fn(pf)
+            pg = CFG(pf)
+            good = {k: [] for k in kinds}
+            for lnode, lhead in pg.loop_heads.items():
+                if not isinstance(lnode, ast.For):
+                    continue
+                it = unparse(resolve_local(pf, lnode.iter))
+                kind = [k for k in kinds if re.search(r"\bwn\.(%ss\(\)|%s_name_list\b)" % (k, k), it)]
+                if len(kind) != 1:
+                    continue
+                body_nodes = set()
+                for st in lnode.body:
+                    for x in ast.walk(st):
+                        body_nodes.add(id(x))
+                stores = pg.nodes_where(lambda node, d: id(node) in body_nodes and isinstance(node, ast.Assign) and
+                                        any(unparse(t).startswith("m.%s[" % dictname) for t in node.targets))
+                firsts = pg.succ_on(lhead, True)
+                w = None
+                for f0 in firsts:
+                    w = w or pg.can_reach_avoiding(f0, {lhead}, stores)
+                chk.expect(bool(stores) and w is None, "R-C01-5e", "%s: every pass of the loop `for ... in %s` assigns m.%s[...] (no element keeps a stale value)" % (
+                    pname, it, dictname), loc(pf, lnode),
+                           "the requested demand / source head must be re-evaluated for every element at every step",
+                           found=("path skipping the assignment: " + pg.path_text(w)) if w else "no assignment of m.%s[...] in the loop" % dictname)
+                if stores and w is None:
+                    good[kind[0]].append(lhead)
+            for k in kinds:
+                okp, w = pg.must_pass(pg.entry, {pg.exit}, good[k])
+                chk.expect(bool(good[k]) and okp, "R-C01-5e", "%s: every call runs through a loop over all %ss that assigns m.%s[...]" % (pname, k, dictname), loc(pf),
+                           "whether the parameters are being created or refreshed, every %s gets its value for the current time" % k,
+                           found=("path without such a loop: " + pg.path_text(w)) if w else "no loop over wn.%ss() that always assigns" % k)
+        # the refresh itself writes .value of every junction's parameter from the same call (checked in 5b) and create_hydraulic_model builds it
+        chm = repo.func(HYD, "create_hydraulic_model")
+        chk.expect(any(last_attr(c) == "expected_demand_param" for c in calls(chm)), "R-C01-5c", "create_hydraulic_model builds the expected_demand parameter", loc(chm))
 
 
 WITNESSES = [
